@@ -23,3 +23,21 @@ def instantiate(name, args):
     if len(args) != l.arity:
         raise ValueError("lemma %s arity" % name)
     return l.inst(*args)
+
+
+# ---- protocol algebra in the abstract group (Lean: lean/SpakeTheory/Module.lean) ----------------------------
+def _grp():
+    from . import spec_sym as S
+    return S
+
+
+@lemma("spake2_agree", 7, True,
+       "x*((y*G + w*N) + (-w)*N) = y*((x*G + w*M) + (-w)*M)  in any abelian group (Z-module)")
+def _agree(gid, x, y, w, G, M, N):
+    S = _grp()
+    add = lambda a, b: S.f_gadd(gid, a, b)
+    mul = lambda n, a: S.f_gmul(gid, n, a)
+    lhs = mul(x, add(add(mul(y, G), mul(w, N)), mul(-w, N)))
+    rhs = mul(y, add(add(mul(x, G), mul(w, M)), mul(-w, M)))
+    ins = z3.And(S.f_insub(gid, G), S.f_insub(gid, M), S.f_insub(gid, N))
+    return z3.Implies(ins, lhs == rhs)
